@@ -69,6 +69,14 @@ func families() []family {
 		}
 	}
 	// the protocol of the state, abused at each of its steps
+	// one extra item of every (tag, length): all pairs at the two start messages, the other steps in thorough runs and by chance
+	fs = append(fs,
+		family{[]string{"ps0"}, "pair-setup", "extra-item", len(extraTags) * len(extraLens), 3},
+		family{[]string{"pv0"}, "pair-verify", "extra-item", len(extraTags) * len(extraLens), 3},
+		family{[]string{"psM1", "psM3"}, "pair-setup", "extra-item", 40, 2},
+		family{[]string{"pvM1"}, "pair-verify", "extra-item", 40, 2},
+		family{[]string{"verified"}, "pairings", "extra-item", 40, 2},
+	)
 	add([]string{"ps0"}, "pair-setup", tlvGeneric, 3, 0)
 	add([]string{"psM1"}, "pair-setup", tlvGeneric, 3, 0)
 	add([]string{"psM3"}, "pair-setup", tlvGeneric, 3, 0)
